@@ -107,22 +107,23 @@ Fixpoint match_body (d : db) (body : list atom) (e : env) : list env :=
                          end) (gett d (atab a))
   end.
 
+Fixpoint any_neq (e : env) (l : list (expr * expr)) : option bool :=
+  match l with
+  | [] => Some false
+  | (a, b) :: tl =>
+      match eval_expr e a, eval_expr e b, any_neq e tl with
+      | Some x, Some y, Some r => Some (negb (val_eqb x y) || r)
+      | _, _, _ => None
+      end
+  end.
+
 Definition guard_ok (e : env) (g : guard) : option bool :=
   match g with
   | GNeq a b => match eval_expr e a, eval_expr e b with
                 | Some x, Some y => Some (negb (val_eqb x y)) | _, _ => None end
   | GEq a b => match eval_expr e a, eval_expr e b with
                | Some x, Some y => Some (val_eqb x y) | _, _ => None end
-  | GAnyNeq l =>
-      (fix go (l : list (expr * expr)) : option bool :=
-         match l with
-         | [] => Some false
-         | (a, b) :: tl =>
-             match eval_expr e a, eval_expr e b, go tl with
-             | Some x, Some y, Some r => Some (negb (val_eqb x y) || r)
-             | _, _, _ => None
-             end
-         end) l
+  | GAnyNeq l => any_neq e l
   end.
 
 Fixpoint guards_ok (e : env) (gs : list guard) : option bool :=
